@@ -482,3 +482,30 @@ pub fn gen_calls(seed: u64, n: usize) -> Vec<Value> {
     }
     out
 }
+
+/// random strings (as code points) with dense delimiter / backslash juxtapositions and characters of all planes
+pub fn gen_strings(seed: u64, n: usize, maxlen: i32) -> Vec<Value> {
+    let mut g = G::new(seed ^ 0x57a1);
+    let hot: Vec<u32> = vec![39, 96, 34, 92, 92, 92, 32, 10, 9, 47, 97, 98, 0xe9, 0x20ac, 0xffff, 0x1f600, 0x10000, 0x10ffff, 0x7f, 0x80, 123, 91, 58, 44];
+    let mut out = vec![];
+    for _ in 0..n {
+        let len = g.rng.gen_range(0..maxlen.max(1));
+        let s: Vec<u32> = (0..len)
+            .map(|_| {
+                if g.rng.gen_bool(0.8) {
+                    hot[g.rng.gen_range(0..hot.len())]
+                } else {
+                    // any scalar value except surrogates and NUL..US control characters other than \t \n
+                    loop {
+                        let c = g.rng.gen_range(32u32..0x110000);
+                        if !(0xd800..0xe000).contains(&c) {
+                            break c;
+                        }
+                    }
+                }
+            })
+            .collect();
+        out.push(json!({ "s": s }));
+    }
+    out
+}
